@@ -8,7 +8,7 @@
      tfr_cursor         IndexSnapshotTermFieldReader is a cursor over the concatenation of its segments
                         on forward programs (a backward target restarts the reader: outside the contract) *)
 From Coq Require Import ZArith List Bool Lia.
-From Verif Require Import Cursor.Cursor Cursor.Machines Cursor.MachProofsBase Cursor.MachProofsKids
+From Verif Require Import Cursor.Cursor Cursor.Machines Cursor.MachReaders Cursor.MachProofsBase Cursor.MachProofsKids
   Cursor.MachProofsConj Cursor.MachProofsDisj Cursor.MachProofsFilter Cursor.MachProofsHeap.
 Import ListNotations.
 Local Open Scope Z_scope.
@@ -696,4 +696,36 @@ Proof.
   - intros [|[|[|[|[|j]]]]] it o Hi Ho; cbn in Hi, Ho; inversion Hi; inversion Ho; subst; cbn; repeat split; try lia;
       repeat constructor; try lia; intros o' Ho'; inversion Ho'; lia.
   - intros [|[|[|[|j]]]] a b Ha Hb; cbn in Ha, Hb; inversion Ha; inversion Hb; subst; try lia; destruct j; discriminate.
+Qed.
+
+(* the boolean layout check of the correspondence cases implies the hypotheses of [tfr_cursor] *)
+From Verif Require Import Cursor.MachCorr.
+
+Lemma wf_segsb_sound : forall segs offs, wf_segsb segs offs = true -> wf_segs segs offs.
+Proof.
+  induction segs as [|l segs IH]; intros [|o offs] H; cbn in H; try discriminate.
+  - split; [reflexivity|]. split; intros [|j]; cbn; discriminate.
+  - apply andb_true_iff in H as [H H4]. apply andb_true_iff in H as [H H3]. apply andb_true_iff in H as [H1 H2].
+    destruct (IH offs H4) as [Il [Iloc Im]]. split; [cbn; congruence|]. split.
+    + intros [|j] it o0 Hi Ho; cbn in Hi, Ho.
+      * inversion Hi; inversion Ho; subst. split; [apply ascendingb_spec; exact H1|].
+        apply Forall_forall. intros x Hx. rewrite forallb_forall in H2. specialize (H2 x Hx).
+        apply andb_true_iff in H2 as [G1 G2]. split; [apply Z.leb_le; exact G1|].
+        intros o' Ho'. cbn in Ho'. destruct offs as [|o1 offs']; [discriminate|]. cbn in Ho'. inversion Ho'; subst.
+        apply Z.ltb_lt. exact G2.
+      * destruct (Iloc j it o0 Hi Ho) as [A F]. split; [exact A|]. exact F.
+    + intros [|j] a b Ha Hb; cbn in Ha, Hb.
+      * inversion Ha; subst. destruct offs as [|o1 offs']; [discriminate|]. cbn in Hb. inversion Hb; subst. apply Z.leb_le. exact H3.
+      * eapply Im; eauto.
+Qed.
+
+Theorem tfr_cursor_checked unadorned segs offs prog :
+  snapshot_ok segs offs = true -> nonneg_targets prog = true ->
+  forward (tfr_global segs offs) prog = true ->
+  tfr_run (tfr_init unadorned segs offs) prog = Some (run_spec (tfr_global segs offs) prog).
+Proof.
+  unfold snapshot_ok, nonneg_targets. intros H1 H2 H3. apply andb_true_iff in H1 as [Hw Hh].
+  apply tfr_cursor; [apply wf_segsb_sound; exact Hw| | |exact H3].
+  - intros o Ho. destruct offs as [|o0 offs']; cbn in Ho; [discriminate|]. inversion Ho; subst. apply Z.eqb_eq. exact Hh.
+  - apply Forall_forall. intros c Hc. rewrite forallb_forall in H2. specialize (H2 c Hc). destruct c; [exact I|apply Z.leb_le; exact H2].
 Qed.
